@@ -347,6 +347,8 @@ func mixCase(hseed uint64) {
 		g            *regState
 		repo, method string
 		hints        []string
+		ghints       []string // global scope hints (WithScopes)
+		alias        bool     // connect to the registry's alias address, Host = its name
 		j            uint64
 		valid        bool
 		cancelFetch  bool // the caller's context is cancelled while its token request is in flight
@@ -366,8 +368,8 @@ func mixCase(hseed uint64) {
 	}
 	for i := range jobs {
 		g := common.Pick(r, w.regs)
-		jobs[i] = job{g: g, repo: common.Pick(r, []string{"lib/a", "lib/a", "lib/b"}), method: common.Pick(r, []string{"GET", "GET", "DELETE"}),
-			hints: genHints(r), j: r.U64(), valid: w.validFor(g, oauth2) && g.mode != modeWeird}
+		jobs[i] = job{g: g, repo: common.Pick(r, []string{"lib/a", "lib/a", "lib/b"}), method: common.Pick(r, []string{"GET", "GET", "DELETE", "PUT"}),
+			hints: genHints(r), ghints: genHints(r), alias: r.Chance(1, 6), j: r.U64(), valid: w.validFor(g, oauth2) && g.mode != modeWeird}
 		if r.Chance(1, 6) {
 			jobs[i].cancelFetch = true
 			jobs[i].valid = false
@@ -388,7 +390,19 @@ func mixCase(hseed uint64) {
 			if len(jb.hints) > 0 {
 				ctx = auth.WithScopesForHost(ctx, jb.g.host, clone(jb.hints)...)
 			}
-			req, _ := http.NewRequestWithContext(ctx, jb.method, "http://"+jb.g.host+"/v2/"+jb.repo+"/manifests/latest", nil)
+			if len(jb.ghints) > 0 {
+				ctx = auth.WithScopes(ctx, clone(jb.ghints)...)
+			}
+			var rd io.Reader
+			if jb.method == "PUT" {
+				rd = strings.NewReader("manifest-bytes") // rewindable body, re-sent after the challenge
+			}
+			target := jb.g.host
+			if jb.alias {
+				target = jb.g.alias
+			}
+			req, _ := http.NewRequestWithContext(ctx, jb.method, "http://"+target+"/v2/"+jb.repo+"/manifests/latest", rd)
+			req.Host = jb.g.host
 			req.Header.Set("X-Verif-Req", fmt.Sprintf("%d", i))
 			res, err := client.Do(req)
 			results[i] = classifyResult(res, err)
